@@ -30,6 +30,12 @@ def nonEdgeConstraints (comp : List (Nat × Nat)) (var : Nat → Nat) : List For
   if comp.isEmpty then [.true_]
   else comp.map (fun (a, b) => .not (.bin .and (.var (var a)) (.var (var b))))
 
+/-- the antecedent `c₁ & c₂ & … & cₖ` over the copies (the last conjunct is written without `&`) -/
+def antecedent (copies : List Formula) : Formula :=
+  match copies.reverse with
+  | [] => .true_
+  | last :: restRev => conj restRev.reverse last
+
 /-- the emitted formula: vertices are numbered by `vid`, their copies by `cid` -/
 def formula (edges : List (Nat × Nat)) (vs : List Nat) (undirected all : Bool) (vid cid : Nat → Nat) : Formula :=
   let comp := complement edges vs undirected
@@ -37,9 +43,7 @@ def formula (edges : List (Nat × Nat)) (vs : List Nat) (undirected all : Bool) 
   if all then conj own .true_
   else
     let copies := nonEdgeConstraints comp cid
-    let body : Formula := match copies.reverse with
-      | [] => .true_
-      | last :: restRev => conj restRev.reverse last
+    let body : Formula := antecedent copies
     conj own
       (.quant .forall_ (vs.map cid)
         (.bin .implies body (.cntVar .atLeast (vs.map (fun v => .var (vid v))) (vs.map (fun v => .var (cid v))))))
